@@ -334,6 +334,20 @@ pub fn run(cli: &Cli, rep: &Report) {
     // converted by the harness's reference encoder): the main stream is the case's source, the call, jump and range
     // coder streams are in memory
     let mut rcases: Vec<RCase> = reader_cases(&items);
+    // the multi-threaded LZIP reader (needs Seek: it reads its own copy of the file; real worker threads)
+    for it in &items {
+        if matches!(it.cont, Container::Lzip { .. }) && !it.bytes.is_empty() {
+            let bytes = it.bytes.clone();
+            rcases.push(RCase {
+                name: format!("{}-mt2", it.name),
+                family: "lzip-mt",
+                bytes: it.bytes.clone(),
+                expect: it.input.clone(),
+                open: Box::new(move |_src| Ok(Box::new(lzma_rust2::LZIPReaderMT::new(io::Cursor::new(bytes.clone()), 2)?) as Box<dyn io::Read + '_>)),
+                complete_at: vec![],
+            });
+        }
+    }
     for (len, mode) in [(3000usize, 0u32), (3000, 2), (40_000, 0)] {
         let code = gen::build(&[Seg::X(len)], 1);
         let [main, call, jump, rc] = crate::c11::bcj2_encode_policy(&code, mode);
